@@ -74,9 +74,12 @@ def finish(prop, tier, seed, mod, results, extra, t_start, verbose=False):
             errors.append({"unit": d["unit"], "error": e[:1500]})
         if not d["obligations"] and not d.get("errors"):
             errors.append({"unit": d["unit"], "error": "vacuity: unit generated zero obligations"})
-        if d.get("paths", 0) and d.get("covers", {}).get("exit") != "sat" and not d.get("errors") \
+        # vacuity guard: on at least one path that reaches the exit the path condition must not be
+        # refutable (z3 answering `unknown` on lambda/quantifier terms means "no contradiction found",
+        # the same strength as the proofs themselves)
+        if d.get("paths", 0) and d.get("covers", {}).get("exit") not in ("sat", "unknown") and not d.get("errors") \
                 and d.get("cut", 0) + d.get("infeasible", 0) < d.get("paths", 0):
-            errors.append({"unit": d["unit"], "error": "vacuity: no path reached the exit with a satisfiable pc"})
+            errors.append({"unit": d["unit"], "error": "vacuity: the path condition is contradictory on every path that reaches the exit"})
         for ob in d["obligations"]:
             ob = dict(ob)
             ob["unit"] = d["unit"]
